@@ -57,7 +57,7 @@ var c07Letters = func() []c07Letter {
 	plain("SetCReg(1,false,blend)", func(d ivg.Destination, set int) { d.SetCReg(1, false, ivg.BlendColor(0x40, 0xc0, 0x80)) })
 	plain("SetCReg(0,true,blend)", func(d ivg.Destination, set int) { d.SetCReg(0, true, ivg.BlendColor(0x80, 0xc9, 0x85)) })
 	plain("SetCReg(0,true,pal3)", func(d ivg.Destination, set int) { d.SetCReg(0, true, ivg.PaletteIndexColor(3)) })
-	plain("SetNReg(0,true,.)", func(d ivg.Destination, set int) { d.SetNReg(0, true, c07v(set, 0.25, 0.3)) })
+	plain("SetNReg(0,true,.)", func(d ivg.Destination, set int) { d.SetNReg(0, true, c07v(set, 1.5, 0.3)) }) // 1.5 is shortest as a coordinate
 	plain("SetNReg(0,false,.)", func(d ivg.Destination, set int) { d.SetNReg(0, false, c07v(set, 0.75, 0.7)) })
 	plain("SetNReg(1,false,.)", func(d ivg.Destination, set int) { d.SetNReg(1, false, c07v(set, 2, 2.1)) })
 	plain("SetLOD(0,0)", func(d ivg.Destination, set int) { d.SetLOD(0, 0) })
@@ -69,6 +69,13 @@ var c07Letters = func() []c07Letter {
 		}
 	})
 	plain("Reset", func(d ivg.Destination, set int) { d.Reset(ivg.DefaultViewBox, ivg.DefaultPalette) })
+	// a graphic abandoned inside a path with a run pending, then a new graphic on the same objects
+	plain("abandon;Reset", func(d ivg.Destination, set int) {
+		d.StartPath(0, 2, 2)
+		d.RelLineTo(3, 1)
+		d.RelLineTo(c07v(set, 1, 1.1), 4)
+		d.Reset(ivg.DefaultViewBox, ivg.DefaultPalette)
+	})
 	plain("CSel()", func(d ivg.Destination, set int) { d.CSel() })
 	plain("NSel()", func(d ivg.Destination, set int) { d.NSel() })
 	ls = append(ls,
@@ -358,7 +365,7 @@ func (st *c07State) check(cs *c07Case) {
 				fail("logger:helper-result", fmt.Sprintf("letter %d %s returns %v through DestinationLogger->Encoder, %v without the logger", i, L.name, err4, err2))
 				return
 			}
-			if L.name == "Reset" {
+			if L.name == "Reset" || L.name == "abandon;Reset" {
 				e4.HighResolutionCoordinates = cs.Set == 1
 			}
 		}
@@ -366,7 +373,7 @@ func (st *c07State) check(cs *c07Case) {
 			fail("helper-result:"+L.name, fmt.Sprintf("letter %d %s returns %v on the Renderer pipeline but %v on the Encoder pipeline", i, L.name, err1, err2))
 			return
 		}
-		if L.name == "Reset" {
+		if L.name == "Reset" || L.name == "abandon;Reset" {
 			// a new graphic on the same objects: the Encoder forgets the earlier stream, so does the comparison
 			vm.Reset(ivg.DefaultPalette)
 			ras1.ResetLog()
